@@ -1612,6 +1612,122 @@ def scenario_for_replay(scn):
     return {'name': scn.get('name'), 'compress': scn['compress'], 'ops': scn['ops']}
 
 
+# ============================================================================ a dump in flight and another process
+BYSTANDER_VALUES = [('pickle', lambda: {'a': 1, 'b': [1, 2, 3]}), ('ndarray', lambda: np.arange(12).reshape(3, 4)),
+                    ('none', lambda: None), ('big', lambda: bytes(range(256)) * 1200)]
+BYSTANDER_OPS = ['dump', 'dump-after-load', 'list', 'load', 'can_load', 'remove', 'pack', 'lock']
+
+
+def bystander_one(vname, compress, bop, packed):
+    """Process A dumps a value; at the instant its temporary file is complete and about to be renamed into place, a
+    second process (a fresh store object on the same directory) performs ONE complete operation on OTHER keys.  A's dump
+    must finish normally, and afterwards a fresh process sees A's value, and the other process's effect, completely.
+    -> list of problems."""
+    v = dict(BYSTANDER_VALUES)[vname]()
+    probs = []
+    with jugrun.scratch_dir('jugv_c05b_') as root:
+        jd = os.path.join(root, 'jd')
+        A = file_store(jd, compress_numpy=compress)
+        A.dump('seed-value', b'c0ffee00000000000000000000000000000000k0')
+        A.dump('seed-value-2', b'c1ffee00000000000000000000000000000000k1')
+        if packed:
+            A.update_pack()
+        fired = []
+        real_rename, real_replace = os.rename, os.replace
+        tmp = os.path.join(jd, 'tempfiles')
+
+        def other():
+            B = file_store(jd)
+            if bop == 'dump':
+                B.dump('other-value', b'cbffee00000000000000000000000000000000kb')
+            elif bop == 'dump-after-load':
+                assert B.load(b'c0ffee00000000000000000000000000000000k0') == 'seed-value'
+                B.dump('other-value', b'cbffee00000000000000000000000000000000kb')
+            elif bop == 'list':
+                sorted(B.list())
+            elif bop == 'load':
+                assert B.load(b'c0ffee00000000000000000000000000000000k0') == 'seed-value'
+            elif bop == 'can_load':
+                B.can_load(b'c0ffee00000000000000000000000000000000k0'), B.can_load(b'caffee00000000000000000000000000000000ka')
+            elif bop == 'remove':
+                B.remove(b'c0ffee00000000000000000000000000000000k0')
+            elif bop == 'pack':
+                B.update_pack()
+            elif bop == 'lock':
+                L = B.getlock(b'cbffee00000000000000000000000000000000kb')
+                assert L.get()
+                L.release()
+            B.close()
+
+        def mk(real):
+            def f(src, dst, *a, **k):
+                if not fired and isinstance(src, str) and os.path.dirname(os.path.abspath(src)) == os.path.abspath(tmp) \
+                        and 'packs' not in dst:
+                    fired.append(dst)
+                    try:
+                        other()
+                    except Exception as e:
+                        probs.append('the other process failed: %s: %s' % (type(e).__name__, str(e)[:200]))
+                return real(src, dst, *a, **k)
+            return f
+        os.rename, os.replace = mk(real_rename), mk(real_replace)
+        try:
+            try:
+                A.dump(v, b'caffee00000000000000000000000000000000ka')
+            except Exception as e:
+                probs.append('the dump in progress failed: %s: %s' % (type(e).__name__, str(e)[:200]))
+        finally:
+            os.rename, os.replace = real_rename, real_replace
+        if not fired:
+            return None
+        C = file_store(jd)
+        expect = {b'caffee00000000000000000000000000000000ka': v, b'c0ffee00000000000000000000000000000000k0': 'seed-value', b'c1ffee00000000000000000000000000000000k1': 'seed-value-2'}
+        if bop in ('dump', 'dump-after-load'):
+            expect[b'cbffee00000000000000000000000000000000kb'] = 'other-value'
+        if bop == 'remove':
+            del expect[b'c0ffee00000000000000000000000000000000k0']
+        if any(p.startswith('the dump in progress failed') for p in probs):
+            del expect[b'caffee00000000000000000000000000000000ka']
+        for k, want in sorted(expect.items()):
+            try:
+                if not C.can_load(k):
+                    probs.append('%s is not stored afterwards' % hx(k))
+                    continue
+                got = C.load(k)
+                if not same(got, want):
+                    probs.append('%s loads %s instead of %s' % (hx(k), describe(got), describe(want)))
+            except Exception as e:
+                probs.append('%s cannot be loaded afterwards: %s' % (hx(k), type(e).__name__))
+        extra = sorted(hx(k) for k in C.list() if k not in expect)
+        if extra:
+            probs.append('keys nobody stored: %s' % extra)
+        C.close()
+    return probs
+
+
+def bystander_section(ck):
+    n = 0
+    for compress in (False, True):
+        for vname, _ in BYSTANDER_VALUES:
+            for bop in BYSTANDER_OPS:
+                for packed in (False, True):
+                    probs = bystander_one(vname, compress, bop, packed)
+                    if probs is None:
+                        ck.count('bystander: the dump published without a rename out of tempfiles/ (not exercised)')
+                        continue
+                    n += 1
+                    ck.count('bystander:%s' % bop)
+                    ck.distinct(('bystander', vname, compress, bop, packed), True)
+                    if probs:
+                        ck.violation({'kind': 'impl-violation',
+                                      'what': 'a dump in progress and a complete operation of another process disturb each other',
+                                      'bystander': {'value': vname, 'compress_numpy': compress, 'other_process': bop,
+                                                    'store_packed_before': packed},
+                                      'problems': probs})
+    if n == 0:
+        ck.broken.append('C05 bystander section: no dump was exercised (dump no longer renames out of tempfiles/?)')
+
+
 def run(ck):
     ck.prove()
     thorough = ck.tier == 'thorough'
@@ -1628,6 +1744,7 @@ def run(ck):
         'a reader holds the inode it opened (POSIX open-file semantics); directory operations are atomic',
     ]
     rng = ck.rng
+    bystander_section(ck)
     scns = fixed_scenarios(thorough)
     for _ in range(ck.n(15, 240)):
         scns.append(gen_scenario(rng, rng.randint(8, 18), big=thorough and rng.random() < 0.1))
@@ -1789,6 +1906,15 @@ def replay(obj):
     """Re-execute one replay JSON against the repository under test."""
     if 'redis' in obj:
         return replay_redis(obj)
+    if 'bystander' in obj:
+        b = obj['bystander']
+        probs = bystander_one(b['value'], b['compress_numpy'], b['other_process'], b['store_packed_before'])
+        print('process A dumps a %s value; just before its rename another process does: %s' % (b['value'], b['other_process']))
+        for p in probs or []:
+            print('PROBLEM:', p)
+        if not probs:
+            print('both operations completed and a fresh process sees both effects')
+        return 1 if probs else 0
     scn = obj['scenario']
     opi = obj.get('op_index')
     with jugrun.scratch_dir('jugv_c05r_') as root:
